@@ -77,6 +77,12 @@ static void vectors(Ctx& ctx, const Runner& R, const Tables& T) {
   }
   { std::vector<double> v(2 * m); for (uint64_t k = 0; k < m; ++k) { int e = (int)((k * 2654435761u) % 81) - 40; v[2 * k] = ldexp((k & 1) ? -1.0 : 1.0, e); v[2 * k + 1] = ldexp((k & 2) ? 1.5 : -1.25, -e); } push("dynamic range 2^+-40", v); }
   for (int s = 0; s < 3; ++s) { std::vector<double> v(2 * m); for (auto& x : v) x = (rng.unit() - 0.5) * 2048; push(sfmt("seeded dense %d", s), v); }
+  // every finite input: whole vectors of tiny normal numbers (their twiddle products are subnormal: gradual underflow must be
+  // honoured) and of huge ones (results still finite)
+  for (int e : {-1021, -1000, 960}) {
+    std::vector<double> v(2 * m); for (auto& x : v) x = ldexp((rng.unit() < 0.5 ? -1.0 : 1.0) * (1.0 + rng.unit()), e); push(sfmt("dense scaled by 2^%d", e), v);
+    std::vector<double> w(2 * m, 0.0); w[2 * (m / 3)] = ldexp(1.5, e); w[2 * (m / 3) + 1] = ldexp(-1.25, e); push(sfmt("single entry scaled by 2^%d", e), w);
+  }
   GBuf d(2 * m * 8, 8), d2(2 * m * 8, 8);
   uint64_t h0 = R.table_hash();
   for (size_t vi = 0; vi < ins.size(); ++vi) {
